@@ -57,6 +57,7 @@ def handle (l : Line) : Option Verdict :=
                  ("burst_detected", r != r2)]
       else .bad "crc_dmg: d2 is not a <=32-bit burst damage of data"
     | _, _, _, _ => .bad "crc_dmg args"
+  | "pglz4" => some (verdict [] [])   -- all single-bit modifications of a small LZ4 page read without verification: judged by p_off_safe
   | "pgcrc" => some <|
     -- every page the writer produces carries a checksum (write_crc is on by default); see harness/ops_pagecrc.c
     match l.outNat "has_crc" with
